@@ -150,6 +150,14 @@ def check(ctx):
     ctx.rule("R4", "gates: every GeckoAsyncSpa method that issues a command/query has is_connected and is_responding_to_pings as guards of the send (exempt: _connect, _ping_loop)")
     ctx.rule("R5", "wait_for_response: requires a positive timeout, yields every iteration; every request builder passes a timeout")
 
+    ctx.rule("R6", "the status-block transfer is a request engine of its own and obeys the same bound: GeckoAsyncStructure.get has one loop governed by retry_count with a strict decrement on every cycle (whichever way the inner segment loop is left: timeout, gap, out-of-sequence final segment), one fresh request and one transmission per attempt")
+    sget = repo.own_method("GeckoAsyncStructure", "get")
+    from ..pathrules import loop_heads as _lh
+    if len(_lh(cfg_of(sget))) >= 2 and calls_named(cfg_of(sget), "queue_send"):
+        retry_loop_rules(ctx, repo, sget, "R6", "protocol")
+    else:
+        ctx.note(f"{sget.qual}: retry/segment loop shape not recognised - its bound is decided by C01's model scenarios only")
+
     # ---- R1 ---------------------------------------------------------------
     get = repo.own_method(PROTO, "get")
     r = retry_loop_rules(ctx, repo, get, "R1", "self")
